@@ -21,7 +21,10 @@ RULE = ("a cell (LAMMPS triangular form, lengths 1-12, tilts up to 1.5 lengths, 
         "deltasize 1-25 or default; every number is handed over in one of its documented forms (positions: float64 array / "
         "read-only array (setflags, frombuffer, memmap) / Fortran-ordered / strided view / list / tuple, dyadic systems also "
         "float32 and - when all positions are whole numbers - integer-typed array / list / tuple; cutoff float / numpy.float64 / "
-        "int; sizes int / numpy ints; pbc list / tuple / bool array).  history: ONE NeighborList object (created by the "
+        "int; sizes int / numpy ints; pbc list / tuple / bool array).  LENGTH UNIT: the whole geometric input of a system (cell vectors, origin, positions, cutoff) is "
+        "expressed in a unit 10^k times the angstrom-like one, k in -12..+6 (1e-10 = SI metres favoured, exactly 1 in about half of the systems; "
+        "the dyadic kind uses powers of two 2^-40..2^30, 2^-33 favoured, so that its arithmetic stays exact); the two systems of a history draw "
+        "their units independently (one object is handed an angstrom-scale and a metre-scale system in turn).  history: ONE NeighborList object (created by the "
         "constructor, System.neighborlist or from a file) goes through 1-4 steps - build() for the same or another system, "
         "cutoff and sizes / load() of another list's file (path, stream, BytesIO, content) / dump-and-load of itself / in-place "
         "edit of the system (pbc setter, positions rolled, an atom moved onto another, whole-property assignment) followed by "
@@ -36,9 +39,12 @@ ASSUMPTIONS = ["numpy is correct",
                "pairs whose distance is within 1e-9*cutoff (+ rounding of the coordinates) of the cutoff are exempt, except in "
                "the dyadic sub-generator where squared distances and cutoff^2 are exact and '<' is decided exactly",
                "atoms placed at relative coordinate 0 or 1 count as inside the cell (inside to rounding, 1e-9 relative)",
+               "every tolerance of the oracle is relative to the cutoff / the size of the cell and its coordinates (exempt band 1e-9*cutoff + 64 ulp of "
+               "the largest coordinate, inside-the-cell test and face labels in relative coordinates), none is a length in working units; a power-of-two "
+               "change of the length unit changes no rounding decision (no underflow: squares are above 1e-30)",
                "Box and Atoms store the numbers they are given (C01, C06); the cell and positions are read back from "
                "the System as data for the reference computation"]
-LEVEL_TEXT = ("Randomised exploration of cells x pbc x atom placements x cutoffs x storage sizes x input forms (about 20 000 systems "
+LEVEL_TEXT = ("Randomised exploration of cells x pbc x atom placements x cutoffs x storage sizes x input forms x length units (1e-12..1e6 of the angstrom-like one) (about 20 000 systems "
               "quick, 480 000 thorough); every list is compared entry by entry with an independent O(N^2 * 27) "
               "reference; sizes / file / API variants are compared with each other; histories of build / load / in-place "
               "system edits on one NeighborList object are judged by the same reference after every step.")
@@ -128,10 +134,27 @@ def spell_pos(pos0, form):
     raise AssertionError('unknown position form %r' % (form,))
 
 
+def length_scale(case):
+    """the overall length unit of a system (cell vectors, origin, positions, cutoff are all expressed in it)"""
+    return float((case.get('cell') or {}).get('scale', 1.0))
+
+
+def scale_labels(case):
+    ls = length_scale(case)
+    if ls == 1.0:
+        return {'scale_1'}
+    labels = {'scaled', 'scale_small' if ls < 1.0 else 'scale_large'}
+    if 0.5e-10 <= ls <= 2e-10:
+        labels.add('scale_1e-10')            # SI metres (10^-10, or 2^-33 for the dyadic kind)
+    if ls <= 1e-8:
+        labels.add('scale_le_1e-8')          # at and below numpy's default absolute tolerance
+    return labels
+
+
 def form_labels(case, system):
     f = case.get('form') or {}
     pf = f.get('pos', 'array')
-    labels = {'pos_' + pf}
+    labels = {'pos_' + pf} | scale_labels(case)
     stored = np.asarray(system.atoms.pos)
     if not stored.flags['WRITEABLE']:
         labels.add('pos_readonly_stored')
@@ -236,7 +259,12 @@ def is_exact_case(case, pos, V, o, cutoff):
     """dyadic sub-generator: orthogonal cell, every number a small dyadic rational, so that every sum and square in
     a squared distance (here and in any straightforward implementation) is exact and '<' is decided exactly"""
     sc = float(case.get('scale', 1.0))       # 1 or 8: a power-of-two rescaling changes no rounding decision
-    return bool(case.get('dyadic')) and sc in (1.0, 8.0) and np.count_nonzero(V - np.diag(np.diag(V))) == 0 \
+    ls = length_scale(case)                  # overall length unit: for dyadic systems a power of two, 2^-40 .. 2^30
+    mant, ex = np.frexp(ls)
+    if not (bool(case.get('dyadic')) and sc in (1.0, 8.0) and mant == 0.5 and -45 <= ex <= 35):
+        return False
+    sc = sc * ls                             # exact
+    return np.count_nonzero(V - np.diag(np.diag(V))) == 0 \
         and is_small_dyadic(pos / sc, V / sc, o / sc, bits=3) and is_small_dyadic(cutoff / sc, bits=20, bound=2 ** 5)
 
 
@@ -293,6 +321,8 @@ def case_labels(case, pos, V, o, pbc, cutoff, exp, near, D0, rb, maxcoord, atcut
         labels.add('sizes_given')
     if exact:
         labels.add('exact_arithmetic')
+        if length_scale(case) != 1.0:
+            labels.add('exact_scaled')       # the boundary '<' decided exactly in a length unit other than 1
     cut = atcut is not None and bool(atcut.any())
     if cut:
         labels.add('pair_exactly_at_cutoff')
@@ -660,6 +690,8 @@ def oracle_history(case):
     for k, m in enumerate(models):
         labels.add('kind_' + m.sub['kind'])
         labels |= form_labels(m.sub, m.system)
+    if len({length_scale(m.sub) for m in models}) > 1:
+        labels.add('mixed_scales')           # the one object is handed systems expressed in different length units
     tmp = tempfile.mkdtemp(prefix='c03-')
     try:
         path = os.path.join(tmp, 'nlist.txt')
@@ -775,22 +807,27 @@ CLAUSES = [
                       'bin_grew': 0.025, 'pair_exactly_at_cutoff': 0.012, 'pbc_mixed': 0.3, 'rotated': 0.18,
                       'tilted': 0.2, 'cutoff_gt_width': 0.04, 'own_image_within_cutoff': 0.015, 'kind_targeted': 0.1,
                       'kind_binedge': 0.07, 'on_face': 0.2, 'pos_readonly_stored': 0.09, 'pos_noncontiguous_stored': 0.04,
-                      'pos_sequence': 0.035},
+                      'pos_sequence': 0.035, 'scale_1': 0.25, 'scaled': 0.2, 'scale_1e-10': 0.06, 'scale_le_1e-8': 0.12,
+                      'scale_large': 0.04, 'exact_scaled': 0.025},
            desc='every list equals the independent reference {j != i : shortest of the 27 candidates < cutoff}; strictly '
                 'ascending, no self entry, symmetric, coord = length = first column; for every input form'),
     Clause('sizes', oracle_sizes, sizes_cases, quick=2200, thorough=55000,
-           min_share={'nt': 0.15, 'grew_twice': 0.1, 'size_one': 0.2, 'pos_readonly_stored': 0.09},
+           min_share={'nt': 0.15, 'grew_twice': 0.1, 'size_one': 0.2, 'pos_readonly_stored': 0.09,
+                      'scale_1': 0.25, 'scaled': 0.2, 'scale_1e-10': 0.06, 'scale_le_1e-8': 0.11, 'scale_large': 0.04},
            desc='identical lists for default and drawn initialsize/deltasize (both, and each alone), and for the default again afterwards'),
     Clause('file', oracle_file, file_cases, quick=2000, thorough=38000,
-           min_share={'nt': 0.3, 'ragged': 0.15, 'has_empty_row': 0.25, 'two_digit_ids': 0.08, 'pos_readonly_stored': 0.07},
+           min_share={'nt': 0.3, 'ragged': 0.15, 'has_empty_row': 0.25, 'two_digit_ids': 0.08, 'pos_readonly_stored': 0.07,
+                      'scale_1': 0.25, 'scaled': 0.2, 'scale_1e-10': 0.06, 'scale_le_1e-8': 0.12, 'scale_large': 0.04},
            desc='dump then NeighborList(model=path | open binary stream | BytesIO | content string) and System.neighborlist(model=): '
                 'identical lists; second dump identical text'),
     Clause('api', oracle_api, api_cases, quick=1800, thorough=22000,
-           min_share={'nt': 0.28, 'via_function': 0.12, 'via_build': 0.1, 'positional_arguments': 0.17, 'pos_readonly_stored': 0.07},
+           min_share={'nt': 0.28, 'via_function': 0.12, 'via_build': 0.1, 'positional_arguments': 0.17, 'pos_readonly_stored': 0.07,
+                      'scale_1': 0.25, 'scaled': 0.2, 'scale_1e-10': 0.06, 'scale_le_1e-8': 0.12, 'scale_large': 0.04},
            desc='System.neighborlist, nlist(), NeighborList.build (positional and keyword) give the same lists as NeighborList(system=, cutoff=); system untouched'),
     Clause('history', oracle_history, history_cases, quick=1600, thorough=30000,
            min_share={'nt': 0.17, 'replaced_after_read': 0.28, 'replaced_other_natoms': 0.15, 'read_before_first_step': 0.25,
-                      'op_load': 0.15, 'op_edit': 0.13, 'op_selfload': 0.06, 'unjudged_step': 0.09, 'pos_readonly_stored': 0.12},
+                      'op_load': 0.15, 'op_edit': 0.13, 'op_selfload': 0.06, 'unjudged_step': 0.09, 'pos_readonly_stored': 0.12,
+                      'mixed_scales': 0.25, 'scaled': 0.3, 'scale_1e-10': 0.1, 'scale_le_1e-8': 0.19, 'scale_large': 0.08},
            desc='one NeighborList object through build / load / dump-load / in-place system edits, read in varying orders: after every '
                 'step it equals the independent reference for what it was last given; an untouched second list stays as it was'),
 ]
